@@ -977,4 +977,67 @@ example :
 
 end C16Examples
 
+-- ===== w7reauditB =====
+
+/-- **The SI prefix tables of a layer are joined by THAT layer's precedence** (`C16_layer_settings` says the tables are
+    folded with `layerSI`, which was only defined through the model's `joinSI`; this spells the fold out).  One layer: a
+    layer without an `[si]` table leaves the tables and the recorded precedence alone; a layer with one joins its
+    `prefixes` and `symbol_prefixes` to the current ones with `join_prefixes` under ITS OWN declared precedence — not the
+    one recorded from an earlier layer — and records its precedence.  At the level of `build`: for a stack `fs ++ [f]`
+    whose last layer has an `[si]` table, the tables `finish` expands with (`b.si`, the ones `C16_si_forms` speaks about)
+    are the tables of the stack `fs` joined with `f`'s under `f`'s precedence (`C16_later_layers_override`, 4th part: new
+    before old / old before new / new only). -/
+theorem C16_si_layer_precedence {α : Type} [Arith α] :
+    (∀ (s : SIConf) (f : UnitsFile α), f.si = none → layerSI s f = s) ∧
+    (∀ (s x : SIConf) (f : UnitsFile α), f.si = some x →
+      (layerSI s f).prefixes = joinPrefixes s.prefixes x.prefixes x.precedence ∧
+      (layerSI s f).symbolPrefixes = joinPrefixes s.symbolPrefixes x.symbolPrefixes x.precedence ∧
+      (layerSI s f).precedence = x.precedence) ∧
+    (∀ (fs : List (UnitsFile α)) (f : UnitsFile α) (x : SIConf) (conv : Bld.Converter α), f.si = some x →
+      build (fs ++ [f]) = .ok conv →
+      ∃ b c, buildCore (fs ++ [f]) = .ok (b, c) ∧ conv.units = c.units.map (·.unit) ∧
+        b.si.prefixes = joinPrefixes
+          (fs.foldl layerSI { prefixes := none, symbolPrefixes := none, precedence := .before }).prefixes x.prefixes x.precedence ∧
+        b.si.symbolPrefixes = joinPrefixes
+          (fs.foldl layerSI { prefixes := none, symbolPrefixes := none, precedence := .before }).symbolPrefixes x.symbolPrefixes
+          x.precedence ∧
+        b.si.precedence = x.precedence) := by
+  refine ⟨fun s f h => by simp [layerSI, h], fun s x f h => by simp [layerSI, h, joinSI], ?_⟩
+  intro fs f x conv hx h
+  obtain ⟨b, c, hbc, _, hsi, _⟩ := C16_layer_settings (fs ++ [f]) conv h
+  obtain ⟨b', c', hbc', hu, _⟩ := C16_si_forms (fs ++ [f]) conv h
+  rw [hbc] at hbc'
+  cases hbc'
+  refine ⟨b, c, hbc, hu, ?_⟩
+  rw [hsi, List.foldl_append]
+  simp [layerSI, hx, joinSI]
+
+namespace C16Examples
+
+/-- a layer that adds the Portuguese `quilo` AFTER the prefixes so far -/
+def siAfter : UnitsFile Rat :=
+  { defaultSystem := none, fractions := none, extend := none, quantity := [],
+    si := some { prefixes := some (fun p => match p with | .kilo => [['q','u','i','l','o']] | _ => []),
+                 symbolPrefixes := some (fun _ => []), precedence := .after } }
+
+/-- a layer that REPLACES the name prefixes (under `override` the symbol prefixes it gives replace the earlier ones too,
+    so it repeats them) -/
+def siOverride : UnitsFile Rat :=
+  { defaultSystem := none, fractions := none, extend := none, quantity := [],
+    si := some { prefixes := some (fun p => match p with
+                   | .kilo => [['K']] | .hecto => [['H']] | .deca => [['D','A']] | .deci => [['D']] | .centi => [['C']] | .milli => [['M']]),
+                 symbolPrefixes := siFull.symbolPrefixes, precedence := .override } }
+
+-- `C16_si_layer_precedence`: base (`before`) + a layer declared `after`: `kilogram` stays the first name of unit 5 (the
+-- expanded kilogram); joined with the precedence of the layer BEFORE it (`before`) `quilogram` would come first
+example : (build [base, siAfter]).toOption.map (fun c => (c.units[5]?).map (·.names))
+    = some (some [['k','i','l','o','g','r','a','m'], ['q','u','i','l','o','g','r','a','m']]) := by decide +kernel
+-- … and a third layer declared `override` replaces both earlier ones (with the precedence of the second layer, `after`,
+-- the three prefixes would all be there and `kilo` of the first layer would still resolve)
+example : (build [base, siAfter, siOverride]).toOption.map (fun c => ((c.units[5]?).map (·.names), idxGet c.index ['k','i','l','o','g','r','a','m']))
+    = some (some [['K','g','r','a','m']], none) := by decide +kernel
+
+end C16Examples
+-- ===== end w7reauditB =====
+
 end Cook
